@@ -284,6 +284,8 @@ pub fn run(ctx: &Ctx) {
             }
         }
     });
+    crate::ttylanes::c14(ctx);
+    ctx.require("tty: three typed generations into one file, all keys usable", 3);
     ctx.require("step into existing-keyring", 10);
     ctx.require("step into existing-keyring-over-8KiB", 3);
     ctx.require("step into absent", 1);
